@@ -6,7 +6,7 @@ Tie:    harness/simdrv.c <-> Drivers/SimMain.lean on generated scenarios (profil
 """
 import simcheck
 
-PROFILES = ['buffer', 'mixed']
+PROFILES = ['buffer', 'mixed', 'qdrain']
 
 
 def run(chk):
